@@ -37,6 +37,14 @@ def ref_log_conductivity(zs, Ks, xi):
     return logs[-1]
 
 
+def ref_layer_integral(zs, Ks, i):
+    """Exact integral of exp(linear interpolant of log K) over the whole layer [z_i, z_{i+1}]."""
+    dz = zs[i + 1] - zs[i]
+    if Ks[i] == Ks[i + 1]:
+        return Ks[i] * dz
+    return (Ks[i + 1] - Ks[i]) * dz / (libstubs.sym_log(Ks[i + 1]) - libstubs.sym_log(Ks[i]))
+
+
 def harness(eng, ctx):
     tm, T, zs, Ks, tmin = make_T(eng, ctx)
     w = eng.real('w')
@@ -55,9 +63,23 @@ def harness(eng, ctx):
         if not eng.prove(len(log) == 1, 'C15: exactly one integral is taken'):
             return
         rec = log[0]
-        eng.prove(rec.a == zs[0], 'C15: integral starts at the lowest knot')
+        # The integral may start at any knot j at or below the level, provided the whole layers below that
+        # knot are added in closed form (integral of exp(linear) over a layer = logarithmic mean of the two
+        # conductivities times the thickness).  On the code as it stands j is always 0.
+        j = None
+        for i in range(len(zs)):
+            if rec.a == zs[i]:
+                j = i
+                break
+        if j is None or not (zs[j] <= w):
+            eng.prove(False, 'C15: integral starts at the lowest knot', detail='lower limit is not a knot at or below the level')
+            return
+        base = tmin
+        for i in range(j):
+            base = base + ref_layer_integral(zs, Ks, i)
         eng.prove(rec.b == w, 'C15: integral ends at the water level')
-        eng.prove(val == tmin + rec.result, 'C15: transmissivity = minimum + integral')
+        eng.prove(val == base + rec.result, 'C15: transmissivity = minimum + integral',
+                  detail='integral taken from knot %d; whole layers below it in closed form' % j)
         # integrand at the probe point = exp(linear interpolant of log K)
         want = libstubs.sym_exp(ref_log_conductivity(zs, Ks, rec.xi))
         eng.prove(rec.value == want, 'C15: integrand is exp of the piecewise-linear log-conductivity',
@@ -170,6 +192,8 @@ def replay_concrete(n, m):
 
 class C15(Check):
     pid = 'C15'
+    replay_candidates = 48      # concrete replays are cheap; a closed-form variant fails the structural obligation on
+                                # every path but is wrong only on some (e.g. a uniform layer holding the level)
 
     def run(self):
         quick = self.tier == 'quick'
